@@ -545,13 +545,23 @@ func entityLUBsRelated(a, b entityLUB) bool {
 // isEntityDescendant returns true if childType can be a descendant (member) of ancestorType.
 // This means childType lists ancestorType (directly or transitively) in its ParentTypes.
 func (v *Validator) isEntityDescendant(childType, ancestorType types.EntityType) bool {
+	return v.isEntityDescendantVisited(childType, ancestorType, map[types.EntityType]struct{}{})
+}
+
+// isEntityDescendantVisited tracks visited types because entity type hierarchies may be cyclic
+// (e.g. `entity Group in [Group]`).
+func (v *Validator) isEntityDescendantVisited(childType, ancestorType types.EntityType, visited map[types.EntityType]struct{}) bool {
+	if _, ok := visited[childType]; ok {
+		return false
+	}
+	visited[childType] = struct{}{}
 	// Entity types always exist in the schema (validated during scope checking).
 	entity := v.schema.Entities[childType]
 	for _, parent := range entity.ParentTypes {
 		if parent == ancestorType {
 			return true
 		}
-		if v.isEntityDescendant(parent, ancestorType) {
+		if v.isEntityDescendantVisited(parent, ancestorType, visited) {
 			return true
 		}
 	}
